@@ -3,6 +3,7 @@ import TD.C06.LemmasPlan
 import TD.C06.LemmasLoad
 import TD.C06.LemmasMulti
 import TD.C06.LemmasSel
+import TD.C06.LemmasInd
 import TD.C06.LemmasReads
 import TD.C06.LemmasX
 
@@ -499,7 +500,7 @@ theorem setFrameSet_values_allchannels_partial
   have htell : ∀ f ∈ rangeList a b c, rle01Tell rle f = .ok (loc f) := by
     intro f hf
     rw [rle01Tell_locate, hloc f (mem_rangeList a b c f hf).2]
-  obtain ⟨hG, hflat⟩ := foldMap_grouped c ((rangeList a b c).map loc) [] ⟨by simp, by simp⟩
+  obtain ⟨hG, hflat, _⟩ := foldMap_grouped c ((rangeList a b c).map loc) [] ⟨by simp, by simp⟩ (by simp)
     (chain_of_frames (expand rle) hR c hstep loc a b (fun f _ h2 => hloc f h2))
     (by cases (rangeList a b c).map loc with
         | nil => trivial
@@ -759,7 +760,7 @@ theorem setFrameSet_values
   have htell : ∀ f ∈ rangeList a b c, rle01Tell rle f = .ok (loc f) := by
     intro f hf
     rw [rle01Tell_locate, hloc f (mem_rangeList a b c f hf).2]
-  obtain ⟨hG, hflat⟩ := foldMap_grouped c ((rangeList a b c).map loc) [] ⟨by simp, by simp⟩
+  obtain ⟨hG, hflat, _⟩ := foldMap_grouped c ((rangeList a b c).map loc) [] ⟨by simp, by simp⟩ (by simp)
     (chain_of_frames (expand rle) hR c hstep loc a b (fun f _ h2 => hloc f h2))
     (by cases (rangeList a b c).map loc with
         | nil => trivial
@@ -825,5 +826,318 @@ do not depend on the selection -/
 theorem rowSel_is_restriction (d : Dfsr) (p : Plan) (cs : List Nat) (frame : List Nat) :
     rowSel d p cs frame = cs.flatMap (fun c => rowSel d p [c] frame) := by
   simp [rowSel]
+
+/-! ## Implied X — the exact value rule, in general
+
+For every indirect-X log pass (recording mode 1, X word of `w > 0` bytes in an integer-decodable code, frame spacing
+units = depth units) with data records at strictly increasing positions, every slice inside the frame count (any step),
+every non-empty channel selection and every earlier frame set: the load succeeds and the implied X vector is
+`allXs spacing xrec step groups none`, where `groups` is the grouping of the requested frames by record and, record
+after record (`entryXs` / `entryBase`):
+* the first loaded frame of a record whose first selected offset `a` is 0 gets the record's own X word;
+* with `a > 0` it gets `X word + a·spacing` in the first loaded record, but `X of the previously loaded frame +
+  a·spacing` in every later record — the defect F7;
+* every further frame of the record gets `step·spacing` more than the one before.
+`spacing` is `-|s|` for an up log and `|s|` otherwise. This is the wrong-value rule of the oracle, now a theorem. -/
+
+theorem implied_x_rule
+    (d : Dfsr) (w : Nat) (s : Int) (rle : List Item01) (st : Store) (fsOld : Option FrameSet) (sl : Option Sl)
+    (chList : Option (List Nat))
+    (hi : IndCtx d ⟨w, d.chans.map Chan.size⟩ w) (hu : d.spacingUnits = d.depthUnits) (hs : d.spacing = some s)
+    (hcl : ∀ c ∈ selIdxI d chList, c < d.chans.length) (hne : selIdxI d chList ≠ [])
+    (hR : IncTells (expand rle))
+    (hst : ∀ tn ∈ expand rle, ∃ bs x, Store.find st tn.1.toNat = some bs ∧ bs.head? = some d.dataType ∧
+      bs.length = 2 + w + tn.2 * sumN (d.chans.map Chan.size) ∧ xDecode d.depthRc (beWord ((bs.drop 2).take w)) = .ok x)
+    (hlt : (slOrAll sl (rle01Total rle)).start < (slOrAll sl (rle01Total rle)).stop)
+    (hstop : (slOrAll sl (rle01Total rle)).stop ≤ rle01Total rle) :
+    ∃ ops, (setFrameSet ⟨d, ⟨w, d.chans.map Chan.size⟩, 0, rle, fsOld⟩ st sl chList).2 = .ok ops ∧
+      (setFrameSet ⟨d, ⟨w, d.chans.map Chan.size⟩, 0, rle, fsOld⟩ st sl chList).1.frameSet.map (·.xvec)
+        = some ((allXs (spacingOf d s) (xrecOf d st w) (slOrAll sl (rle01Total rle)).step1
+            (groupsOf (expand rle) (slOrAll sl (rle01Total rle)).start (slOrAll sl (rle01Total rle)).stop
+              (slOrAll sl (rle01Total rle)).step1) none).map some) := by
+  have hsorted : (selIdxI d chList).Pairwise (· < ·) := by
+    cases chList with
+    | none => exact List.pairwise_lt_range
+    | some l => exact sortDedup_sorted _
+  have hnewG := fun S => new_indirect d S chList s hi.hrm hu hs hcl
+  generalize hcsdef : selIdxI d chList = cs at hsorted hcl hne hnewG
+  cases cs with
+  | nil => exact absurd rfl hne
+  | cons c0 rest =>
+  generalize hS : slOrAll sl (rle01Total rle) = S at hlt hstop
+  obtain ⟨a, b, cc0⟩ := S
+  simp only at hlt hstop
+  have hstep : 0 < (Sl.mk a b cc0).step1 := by unfold Sl.step1; split <;> omega
+  have hnew := hnewG ⟨a, b, cc0⟩
+  simp only at hnew
+  generalize hc : (Sl.mk a b cc0).step1 = c at hstep hnew
+  have hn0 : rle01Total rle ≠ 0 := by omega
+  let loc : Nat → Int × Nat := fun f => (locate (expand rle) f).getD (0, 0)
+  have hloc : ∀ f, f < b → locate (expand rle) f = some (loc f) := by
+    intro f hf
+    obtain ⟨r, hr⟩ := locate_lt (expand rle) f (by rw [← expand_total]; omega)
+    simp [loc, hr]
+  have htell : ∀ f ∈ rangeList a b c, rle01Tell rle f = .ok (loc f) := by
+    intro f hf
+    rw [rle01Tell_locate, hloc f (mem_rangeList a b c f hf).2]
+  obtain ⟨hG, hflat, _⟩ := foldMap_grouped c ((rangeList a b c).map loc) [] ⟨by simp, by simp⟩ (by simp)
+    (chain_of_frames (expand rle) hR c hstep loc a b (fun f _ h2 => hloc f h2))
+    (by cases (rangeList a b c).map loc with
+        | nil => trivial
+        | cons q _ => exact Or.inl rfl)
+  have hGeq : groupsOf (expand rle) a b c = foldMap [] ((rangeList a b c).map loc) := rfl
+  rw [hGeq]
+  generalize hGdef : foldMap [] ((rangeList a b c).map loc) = G at hG hflat
+  simp only [flat, List.flatMap_nil, List.nil_append] at hflat
+  have hflat' : flat G = (rangeList a b c).map loc := hflat
+  have hmap : retFrameSetMap ⟨d, ⟨w, d.chans.map Chan.size⟩, 0, rle, fsOld⟩ ⟨a, b, cc0⟩ = .ok G := by
+    unfold retFrameSetMap
+    simp only [hc]
+    rw [retFrameSetMapAux_fold rle loc _ htell, hGdef]
+    simp only [sortByKey_sorted G hG.1]
+  have hfsz : (⟨w, d.chans.map Chan.size⟩ : Plan).frameSize = sumN (d.chans.map Chan.size) := rfl
+  have hent : ∀ e ∈ G, EntryOkX d ⟨w, d.chans.map Chan.size⟩ w st c e := by
+    intro e he
+    obtain ⟨a', len, hbuf⟩ := hG.2 e he
+    have hmemflat : (e.1, a' + len * c) ∈ flat G := by
+      simp only [flat, List.mem_flatMap, List.mem_map]
+      refine ⟨e, he, a' + len * c, ?_, rfl⟩
+      rw [hbuf, ap]; simp only [List.mem_map, List.mem_range]; exact ⟨len, by omega, rfl⟩
+    rw [hflat'] at hmemflat
+    obtain ⟨f, hf, hlf⟩ := List.mem_map.1 hmemflat
+    have hlocf := hloc f (mem_rangeList a b c f hf).2
+    rw [hlf] at hlocf
+    obtain ⟨n, hmem, hlt'⟩ := locate_mem _ _ _ _ hlocf
+    obtain ⟨bs, x, h1, h2, h3, h4⟩ := hst (e.1, n) hmem
+    exact ⟨a', len, n, bs, x, hbuf, h1, h2, by rw [hfsz]; exact h3, h4, hlt'⟩
+  have hlenR : rangeLen a b c = (rangeList a b c).length := by simp [rangeList]
+  have hsum : (G.map (·.2.length)).sum = rangeLen a b c := by
+    rw [← flat_length, hflat', List.length_map, hlenR]
+  obtain ⟨evs, r', hgen, hex, _, _, hxv⟩ := entries_exec_ind d st c ⟨w, d.chans.map Chan.size⟩ w (spacingOf d s) c0 rest hi hstep hcl hsorted G 0
+    ⟨none, 0, ⟨c0 :: rest, rangeLen a b c,
+          List.replicate (rangeLen a b c) (List.replicate (sumN ((selChans d (c0 :: rest)).map Chan.numValues)) none),
+          List.replicate (rangeLen a b c) none, some (spacingOf d s)⟩, []⟩ none hent rfl
+    (by intro row hm; rw [List.eq_of_mem_replicate hm, List.length_replicate]) (by simp [hsum]) (by simp) rfl (Or.inl ⟨rfl, rfl⟩)
+  have hnF : rangeLen a b c ≠ 0 := by
+    have := rangeLen_lt a b c hlt hstep; omega
+  have hevs : genFrameSetEvents ⟨d, ⟨w, d.chans.map Chan.size⟩, 0, rle, fsOld⟩ ⟨a, b, cc0⟩ (c0 :: rest) = .ok evs := by
+    unfold genFrameSetEvents
+    rw [hmap]; exact hgen
+  unfold setFrameSet
+  simp only [hn0, if_false, hS, hnew, hnF, hevs, hex]
+  refine ⟨_, rfl, ?_⟩
+  simp only [Option.map_some, hxv, Option.some.injEq]
+  apply setVals_full
+  rw [allXs_length _ _ _ _ _ (by intro e he; obtain ⟨a', len, hb⟩ := hG.2 e he; rw [hb]; simp [ap]), hsum]
+
+/-- **Implied X is right in the good class**: if every record but the first loaded one is entered at offset 0 — which
+is the case for step 1, for a log pass held in one record, and generally exactly when the selection is outside the F7
+class — and the X words of the records are consistent with a common origin (`xrec + offset·spacing = x0 +
+frame·spacing` for the located frames), the implied X of every loaded frame `f` is `x0 + f·spacing`. -/
+theorem implied_x_partial
+    (d : Dfsr) (w : Nat) (s : Int) (rle : List Item01) (st : Store) (fsOld : Option FrameSet) (sl : Option Sl)
+    (chList : Option (List Nat))
+    (hi : IndCtx d ⟨w, d.chans.map Chan.size⟩ w) (hu : d.spacingUnits = d.depthUnits) (hs : d.spacing = some s)
+    (hcl : ∀ c ∈ selIdxI d chList, c < d.chans.length) (hne : selIdxI d chList ≠ [])
+    (hR : IncTells (expand rle))
+    (hst : ∀ tn ∈ expand rle, ∃ bs x, Store.find st tn.1.toNat = some bs ∧ bs.head? = some d.dataType ∧
+      bs.length = 2 + w + tn.2 * sumN (d.chans.map Chan.size) ∧ xDecode d.depthRc (beWord ((bs.drop 2).take w)) = .ok x)
+    (hlt : (slOrAll sl (rle01Total rle)).start < (slOrAll sl (rle01Total rle)).stop)
+    (hstop : (slOrAll sl (rle01Total rle)).stop ≤ rle01Total rle)
+    (hclass : ∀ e ∈ (groupsOf (expand rle) (slOrAll sl (rle01Total rle)).start (slOrAll sl (rle01Total rle)).stop
+        (slOrAll sl (rle01Total rle)).step1).tail, e.2.headD 0 = 0)
+    (x0 : Int)
+    (hcons : ∀ f t off, locate (expand rle) f = some (t, off) →
+      xrecOf d st w t + (off : Int) * spacingOf d s = x0 + (f : Int) * spacingOf d s) :
+    (setFrameSet ⟨d, ⟨w, d.chans.map Chan.size⟩, 0, rle, fsOld⟩ st sl chList).1.frameSet.map (·.xvec)
+      = some ((rangeList (slOrAll sl (rle01Total rle)).start (slOrAll sl (rle01Total rle)).stop
+          (slOrAll sl (rle01Total rle)).step1).map (fun (f : Nat) => some (x0 + (f : Int) * spacingOf d s))) := by
+  obtain ⟨ops, _, hx⟩ := implied_x_rule d w s rle st fsOld sl chList hi hu hs hcl hne hR hst hlt hstop
+  rw [hx]
+  have hstep : 0 < (slOrAll sl (rle01Total rle)).step1 := by unfold Sl.step1; split <;> omega
+  obtain ⟨hG, hflat, _⟩ := groupsOf_spec (expand rle) hR (slOrAll sl (rle01Total rle)).start (slOrAll sl (rle01Total rle)).stop
+    (slOrAll sl (rle01Total rle)).step1 hstep (by rw [← expand_total]; exact hstop)
+  rw [allXs_good _ _ _ _ none hG.2 (Or.inl ⟨rfl, hclass⟩), hflat]
+  simp only [List.map_map, Option.some.injEq]
+  apply List.map_congr_left
+  intro f hf
+  simp only [Function.comp, Option.some.injEq]
+  have hfb := (mem_rangeList _ _ _ f hf).2
+  obtain ⟨r, hr⟩ := locate_lt (expand rle) f (by rw [← expand_total]; omega)
+  rw [hr]
+  exact hcons f r.1 r.2 hr
+
+/-- **`implied_x_wrong_iff` — the F7 class as a theorem.** With a non-zero spacing and X words of the records that are
+consistent with a common origin `x0`, the implied X of a loaded frame differs from `x0 + frame·spacing` **exactly** for
+the frames of the records, other than the first loaded one, that are entered at an offset > 0 (`badList`): the list of
+"X is wrong" flags of the loaded frames equals `badList groups true`. (Errors never cancel: each such record adds
+`(a - step)·spacing` with `0 < a < step` to the error carried over from the previous loaded frame, and a record entered
+at offset 0 resets it.) -/
+theorem implied_x_wrong_iff
+    (d : Dfsr) (w : Nat) (s : Int) (rle : List Item01) (st : Store) (fsOld : Option FrameSet) (sl : Option Sl)
+    (chList : Option (List Nat))
+    (hi : IndCtx d ⟨w, d.chans.map Chan.size⟩ w) (hu : d.spacingUnits = d.depthUnits) (hs : d.spacing = some s)
+    (hcl : ∀ c ∈ selIdxI d chList, c < d.chans.length) (hne : selIdxI d chList ≠ [])
+    (hR : IncTells (expand rle))
+    (hst : ∀ tn ∈ expand rle, ∃ bs x, Store.find st tn.1.toNat = some bs ∧ bs.head? = some d.dataType ∧
+      bs.length = 2 + w + tn.2 * sumN (d.chans.map Chan.size) ∧ xDecode d.depthRc (beWord ((bs.drop 2).take w)) = .ok x)
+    (hlt : (slOrAll sl (rle01Total rle)).start < (slOrAll sl (rle01Total rle)).stop)
+    (hstop : (slOrAll sl (rle01Total rle)).stop ≤ rle01Total rle)
+    (hsp : spacingOf d s ≠ 0) (x0 : Int)
+    (hcons : ∀ f t off, locate (expand rle) f = some (t, off) →
+      xrecOf d st w t + (off : Int) * spacingOf d s = x0 + (f : Int) * spacingOf d s) :
+    ∃ xs, (setFrameSet ⟨d, ⟨w, d.chans.map Chan.size⟩, 0, rle, fsOld⟩ st sl chList).1.frameSet.map (·.xvec)
+        = some (xs.map some) ∧
+      List.zipWith (fun x (f : Nat) => decide (x ≠ x0 + (f : Int) * spacingOf d s)) xs
+          (rangeList (slOrAll sl (rle01Total rle)).start (slOrAll sl (rle01Total rle)).stop (slOrAll sl (rle01Total rle)).step1)
+        = badList (groupsOf (expand rle) (slOrAll sl (rle01Total rle)).start (slOrAll sl (rle01Total rle)).stop
+            (slOrAll sl (rle01Total rle)).step1) true := by
+  obtain ⟨ops, _, hx⟩ := implied_x_rule d w s rle st fsOld sl chList hi hu hs hcl hne hR hst hlt hstop
+  refine ⟨_, hx, ?_⟩
+  generalize hS : slOrAll sl (rle01Total rle) = S at hlt hstop ⊢
+  obtain ⟨a, b, cc0⟩ := S
+  simp only at hlt hstop ⊢
+  have hstep : 0 < (Sl.mk a b cc0).step1 := by unfold Sl.step1; split <;> omega
+  generalize (Sl.mk a b cc0).step1 = c at hstep ⊢
+  obtain ⟨hG, hflat, htl⟩ := groupsOf_spec (expand rle) hR a b c hstep (by rw [← expand_total]; exact hstop)
+  have hloc : ∀ f, f < b → ∃ q, locate (expand rle) f = some q ∧ (locate (expand rle) f).getD (0, 0) = q := by
+    intro f hf
+    obtain ⟨r, hr⟩ := locate_lt (expand rle) f (by rw [← expand_total]; omega)
+    exact ⟨r, hr, by simp [hr]⟩
+  have htx : ∀ f, f < b → tx (spacingOf d s) (xrecOf d st w) ((locate (expand rle) f).getD (0, 0)) = x0 + (f : Int) * spacingOf d s := by
+    intro f hf
+    obtain ⟨q, hq, hq'⟩ := hloc f hf
+    rw [hq']; exact hcons f q.1 q.2 hq
+  have hgetf : ∀ i f, (rangeList a b c)[i]? = some f → f = a + i * c ∧ f < b := by
+    intro i f h
+    have hm := mem_rangeList a b c f (List.mem_of_getElem? h)
+    refine ⟨?_, hm.2⟩
+    simp only [rangeList, List.getElem?_map] at h
+    cases hr : (List.range (rangeLen a b c))[i]? with
+    | none => rw [hr] at h; simp at h
+    | some j =>
+      rw [hr] at h
+      simp only [Option.map_some, Option.some.injEq] at h
+      have : j = i := by
+        have hl : i < (List.range (rangeLen a b c)).length := by
+          rcases Nat.lt_or_ge i (List.range (rangeLen a b c)).length with h' | h'
+          · exact h'
+          · rw [List.getElem?_eq_none h'] at hr; cases hr
+        rw [List.getElem?_eq_getElem hl, List.getElem_range] at hr
+        exact (Option.some.inj hr).symm
+      subst this; exact h.symm
+  have hstepx : StepX (spacingOf d s) (xrecOf d st w) c (flat (groupsOf (expand rle) a b c)) := by
+    intro i q q' h1 h2
+    rw [hflat, List.getElem?_map] at h1 h2
+    cases hf1 : (rangeList a b c)[i]? with
+    | none => rw [hf1] at h1; simp at h1
+    | some f1 =>
+      cases hf2 : (rangeList a b c)[i + 1]? with
+      | none => rw [hf2] at h2; simp at h2
+      | some f2 =>
+        rw [hf1] at h1; rw [hf2] at h2
+        simp only [Option.map_some, Option.some.injEq] at h1 h2
+        obtain ⟨e1, l1⟩ := hgetf i f1 hf1
+        obtain ⟨e2, l2⟩ := hgetf (i + 1) f2 hf2
+        rw [← h1, ← h2, htx f1 l1, htx f2 l2, e1, e2]
+        push_cast; ring
+  have hdev := allXs_dev (spacingOf d s) (xrecOf d st w) c hsp (groupsOf (expand rle) a b c) none true 0 0 hG.2
+    (by simpa using htl) (Or.inl ⟨rfl, rfl⟩) hstepx
+  rw [← hdev, hflat, List.zipWith_map_right]
+  apply List.ext_getElem
+  · simp
+  · intro i h1 h2
+    simp only [List.getElem_zipWith]
+    have hi' : i < (rangeList a b c).length := by simp at h1; omega
+    have := htx ((rangeList a b c)[i]) (mem_rangeList a b c _ (List.getElem_mem hi')).2
+    rw [this]
+
+/-- the F7 witness: 3 records × 5 frames, `slice(0,16,2)`: wrong exactly at the two frames loaded from the second record -/
+example : badList (groupsOf (expand lpW.rle) 0 16 2) true = [false, false, false, true, true, false, false, false] := by
+  decide
+
+/-- **Step 1 is always right**: with step 1 (or `None`) every later record is entered at offset 0. -/
+theorem implied_x_step1
+    (d : Dfsr) (w : Nat) (s : Int) (rle : List Item01) (st : Store) (fsOld : Option FrameSet) (sl : Option Sl)
+    (chList : Option (List Nat))
+    (hi : IndCtx d ⟨w, d.chans.map Chan.size⟩ w) (hu : d.spacingUnits = d.depthUnits) (hs : d.spacing = some s)
+    (hcl : ∀ c ∈ selIdxI d chList, c < d.chans.length) (hne : selIdxI d chList ≠ [])
+    (hR : IncTells (expand rle))
+    (hst : ∀ tn ∈ expand rle, ∃ bs x, Store.find st tn.1.toNat = some bs ∧ bs.head? = some d.dataType ∧
+      bs.length = 2 + w + tn.2 * sumN (d.chans.map Chan.size) ∧ xDecode d.depthRc (beWord ((bs.drop 2).take w)) = .ok x)
+    (hlt : (slOrAll sl (rle01Total rle)).start < (slOrAll sl (rle01Total rle)).stop)
+    (hstop : (slOrAll sl (rle01Total rle)).stop ≤ rle01Total rle)
+    (hstep1 : (slOrAll sl (rle01Total rle)).step1 = 1) (x0 : Int)
+    (hcons : ∀ f t off, locate (expand rle) f = some (t, off) →
+      xrecOf d st w t + (off : Int) * spacingOf d s = x0 + (f : Int) * spacingOf d s) :
+    (setFrameSet ⟨d, ⟨w, d.chans.map Chan.size⟩, 0, rle, fsOld⟩ st sl chList).1.frameSet.map (·.xvec)
+      = some ((rangeList (slOrAll sl (rle01Total rle)).start (slOrAll sl (rle01Total rle)).stop
+          (slOrAll sl (rle01Total rle)).step1).map (fun (f : Nat) => some (x0 + (f : Int) * spacingOf d s))) := by
+  apply implied_x_partial d w s rle st fsOld sl chList hi hu hs hcl hne hR hst hlt hstop _ x0 hcons
+  obtain ⟨_, _, htl⟩ := groupsOf_spec (expand rle) hR (slOrAll sl (rle01Total rle)).start (slOrAll sl (rle01Total rle)).stop
+    (slOrAll sl (rle01Total rle)).step1 (by rw [hstep1]; omega) (by rw [← expand_total]; exact hstop)
+  intro e he
+  have := htl e he
+  rw [hstep1] at this
+  omega
+
+/-- **One data record is always right**: a log pass held in one record has a single group. -/
+theorem implied_x_single_record
+    (d : Dfsr) (w : Nat) (s : Int) (rle : List Item01) (st : Store) (fsOld : Option FrameSet) (sl : Option Sl)
+    (chList : Option (List Nat)) (t : Int) (n : Nat) (hone : expand rle = [(t, n)])
+    (hi : IndCtx d ⟨w, d.chans.map Chan.size⟩ w) (hu : d.spacingUnits = d.depthUnits) (hs : d.spacing = some s)
+    (hcl : ∀ c ∈ selIdxI d chList, c < d.chans.length) (hne : selIdxI d chList ≠ [])
+    (hst : ∀ tn ∈ expand rle, ∃ bs x, Store.find st tn.1.toNat = some bs ∧ bs.head? = some d.dataType ∧
+      bs.length = 2 + w + tn.2 * sumN (d.chans.map Chan.size) ∧ xDecode d.depthRc (beWord ((bs.drop 2).take w)) = .ok x)
+    (hlt : (slOrAll sl (rle01Total rle)).start < (slOrAll sl (rle01Total rle)).stop)
+    (hstop : (slOrAll sl (rle01Total rle)).stop ≤ rle01Total rle) :
+    (setFrameSet ⟨d, ⟨w, d.chans.map Chan.size⟩, 0, rle, fsOld⟩ st sl chList).1.frameSet.map (·.xvec)
+      = some ((rangeList (slOrAll sl (rle01Total rle)).start (slOrAll sl (rle01Total rle)).stop
+          (slOrAll sl (rle01Total rle)).step1).map
+            (fun (f : Nat) => some (xrecOf d st w t + (f : Int) * spacingOf d s))) := by
+  have hR : IncTells (expand rle) := by rw [hone]; simp [IncTells]
+  have hstep : 0 < (slOrAll sl (rle01Total rle)).step1 := by unfold Sl.step1; split <;> omega
+  obtain ⟨hG, hflat, _⟩ := groupsOf_spec (expand rle) hR (slOrAll sl (rle01Total rle)).start (slOrAll sl (rle01Total rle)).stop
+    (slOrAll sl (rle01Total rle)).step1 hstep (by rw [← expand_total]; exact hstop)
+  apply implied_x_partial d w s rle st fsOld sl chList hi hu hs hcl hne hR hst hlt hstop _ (xrecOf d st w t)
+  · intro f t' off h
+    rw [hone] at h
+    simp only [locate] at h
+    split at h
+    · simp only [Option.some.injEq, Prod.mk.injEq] at h; obtain ⟨rfl, rfl⟩ := h; rfl
+    · simp [locate] at h
+  · -- all keys are `t`, keys are strictly increasing: at most one group
+    have hkeys : ∀ e ∈ groupsOf (expand rle) (slOrAll sl (rle01Total rle)).start (slOrAll sl (rle01Total rle)).stop
+        (slOrAll sl (rle01Total rle)).step1, e.1 = t := by
+      intro e he
+      obtain ⟨a', len, hb⟩ := hG.2 e he
+      have hm : (e.1, a') ∈ flat (groupsOf (expand rle) (slOrAll sl (rle01Total rle)).start (slOrAll sl (rle01Total rle)).stop
+          (slOrAll sl (rle01Total rle)).step1) := by
+        simp only [flat, List.mem_flatMap, List.mem_map]
+        exact ⟨e, he, a', by rw [hb]; simp [ap]; exact ⟨0, by omega, by simp⟩, rfl⟩
+      rw [hflat] at hm
+      obtain ⟨f, hf, hl⟩ := List.mem_map.1 hm
+      have hfb := (mem_rangeList _ _ _ f hf).2
+      have hfn : f < n := by
+        have : rle01Total rle = n := by rw [expand_total, hone]; simp
+        omega
+      rw [hone] at hl
+      simp [locate, hfn] at hl
+      exact hl.1.symm
+    cases hg : groupsOf (expand rle) (slOrAll sl (rle01Total rle)).start (slOrAll sl (rle01Total rle)).stop
+        (slOrAll sl (rle01Total rle)).step1 with
+    | nil => simp
+    | cons x xs =>
+      cases xs with
+      | nil => simp
+      | cons y ys =>
+        exfalso
+        have hpw := hG.1
+        rw [hg] at hpw hkeys
+        simp only [List.map_cons, List.pairwise_cons] at hpw
+        have h1 := hkeys x (by simp)
+        have h2 := hkeys y (by simp)
+        have := hpw.1 y.1 (by simp)
+        omega
 
 end TD.C06
